@@ -1,5 +1,34 @@
-import SaoVerif.Generated.Skeleton
-import SaoVerif.Spec.SkeletonExpected
+import SaoVerif.Skeleton.x_node_genesis_go
+import SaoVerif.Skeleton.x_sao_genesis_go
+import SaoVerif.Skeleton.x_order_genesis_go
+import SaoVerif.Skeleton.x_model_genesis_go
+import SaoVerif.Skeleton.x_market_genesis_go
+import SaoVerif.Skeleton.x_did_genesis_go
+import SaoVerif.Skeleton.app_export_go
+import SaoVerif.Skeleton.x_node_keeper_fault_go
+import SaoVerif.Skeleton.x_node_keeper_fishing_reward_go
+import SaoVerif.Skeleton.x_node_keeper_node_go
+import SaoVerif.Skeleton.x_did_keeper_account_auth_go
+import SaoVerif.Skeleton.x_did_keeper_account_id_go
+import SaoVerif.Skeleton.x_did_keeper_account_list_go
+import SaoVerif.Skeleton.x_did_keeper_did_balances_go
+import SaoVerif.Skeleton.x_did_keeper_did_go
+import SaoVerif.Skeleton.x_did_keeper_grpc_query_get_all_account_auth_go
+import SaoVerif.Skeleton.x_did_keeper_kid_go
+import SaoVerif.Skeleton.x_did_keeper_past_seeds_go
+import SaoVerif.Skeleton.x_did_keeper_payment_address_go
+import SaoVerif.Skeleton.x_did_keeper_sid_document_go
+import SaoVerif.Skeleton.x_did_keeper_sid_document_version_go
+import SaoVerif.Skeleton.x_market_keeper_worker_go
+import SaoVerif.Skeleton.x_model_keeper_expired_data_go
+import SaoVerif.Skeleton.x_model_keeper_metadata_go
+import SaoVerif.Skeleton.x_model_keeper_model_go
+import SaoVerif.Skeleton.x_node_keeper_pledge_debt_go
+import SaoVerif.Skeleton.x_node_keeper_pledge_go
+import SaoVerif.Skeleton.x_order_keeper_order_go
+import SaoVerif.Skeleton.x_order_keeper_shard_go
+import SaoVerif.Skeleton.x_sao_keeper_expired_shard_go
+import SaoVerif.Skeleton.x_sao_keeper_timeout_order_go
 /-!
 # C18 — the decision logic of the anchor files is the one that was modelled
 
@@ -7,9 +36,10 @@ The extractor (harness/cmd/extract) regenerates, on every run and from the tree 
 function: its branching constructs in source order, each guard with its condition and with how its branch ends (`return <err>`,
 `continue`, `panic`, …). The hand-written model mirrors exactly these decisions (its `…Pre` / `…Guards` functions are the
 guards of the handlers, in their order). This theorem says that for the files the property is anchored in
-(x/node/genesis.go, x/sao/genesis.go, x/order/genesis.go, x/model/genesis.go, x/market/genesis.go, x/did/genesis.go, app/export.go, x/node/keeper/fault.go, x/node/keeper/fishing_reward.go, x/node/keeper/node.go; and, because the anchored code calls into them, x_did_keeper_account_auth_go, x_did_keeper_account_id_go, x_did_keeper_account_list_go, x_did_keeper_did_balances_go, x_did_keeper_did_go, x_did_keeper_grpc_query_get_all_account_auth_go, x_did_keeper_kid_go, x_did_keeper_past_seeds_go, x_did_keeper_payment_address_go, x_did_keeper_sid_document_go, x_did_keeper_sid_document_version_go, x_market_keeper_worker_go, x_model_keeper_expired_data_go, x_model_keeper_metadata_go, x_model_keeper_model_go, x_node_keeper_pledge_debt_go, x_node_keeper_pledge_go, x_order_keeper_order_go, x_order_keeper_shard_go, x_sao_keeper_expired_shard_go, x_sao_keeper_timeout_order_go) the regenerated skeletons equal the ones the model was written against. A change of a guard, of its
-order, or a new or removed branch breaks it: the correspondence then has to be re-established (the check searches the
-histories for a failing input and reports the violation either way).
+(x/node/genesis.go, x/sao/genesis.go, x/order/genesis.go, x/model/genesis.go, x/market/genesis.go, x/did/genesis.go, app/export.go, x/node/keeper/fault.go, x/node/keeper/fishing_reward.go, x/node/keeper/node.go; and, because the anchored code calls into them, x_did_keeper_account_auth_go, x_did_keeper_account_id_go, x_did_keeper_account_list_go, x_did_keeper_did_balances_go, x_did_keeper_did_go, x_did_keeper_grpc_query_get_all_account_auth_go, x_did_keeper_kid_go, x_did_keeper_past_seeds_go, x_did_keeper_payment_address_go, x_did_keeper_sid_document_go, x_did_keeper_sid_document_version_go, x_market_keeper_worker_go, x_model_keeper_expired_data_go, x_model_keeper_metadata_go, x_model_keeper_model_go, x_node_keeper_pledge_debt_go, x_node_keeper_pledge_go, x_order_keeper_order_go, x_order_keeper_shard_go, x_sao_keeper_expired_shard_go, x_sao_keeper_timeout_order_go) the regenerated skeletons equal the ones the model was written against
+(one kernel-evaluated equality per source file, `SaoVerif/Skeleton/<file>.lean`). A change of a guard, of its order, or a new or
+removed branch breaks it: the correspondence then has to be re-established (the check searches the histories for a failing
+input and reports the violation either way).
 -/
 namespace SaoVerif
 
@@ -76,6 +106,6 @@ theorem C18_decision_skeleton_as_modelled :
      Expected.Skel.x_order_keeper_shard_go,
      Expected.Skel.x_sao_keeper_expired_shard_go,
      Expected.Skel.x_sao_keeper_timeout_order_go] := by
-  decide +kernel
+  rw [skel_x_node_genesis_go, skel_x_sao_genesis_go, skel_x_order_genesis_go, skel_x_model_genesis_go, skel_x_market_genesis_go, skel_x_did_genesis_go, skel_app_export_go, skel_x_node_keeper_fault_go, skel_x_node_keeper_fishing_reward_go, skel_x_node_keeper_node_go, skel_x_did_keeper_account_auth_go, skel_x_did_keeper_account_id_go, skel_x_did_keeper_account_list_go, skel_x_did_keeper_did_balances_go, skel_x_did_keeper_did_go, skel_x_did_keeper_grpc_query_get_all_account_auth_go, skel_x_did_keeper_kid_go, skel_x_did_keeper_past_seeds_go, skel_x_did_keeper_payment_address_go, skel_x_did_keeper_sid_document_go, skel_x_did_keeper_sid_document_version_go, skel_x_market_keeper_worker_go, skel_x_model_keeper_expired_data_go, skel_x_model_keeper_metadata_go, skel_x_model_keeper_model_go, skel_x_node_keeper_pledge_debt_go, skel_x_node_keeper_pledge_go, skel_x_order_keeper_order_go, skel_x_order_keeper_shard_go, skel_x_sao_keeper_expired_shard_go, skel_x_sao_keeper_timeout_order_go]
 
 end SaoVerif
